@@ -16,6 +16,8 @@ pub const MODE_BEXH: u8 = 3;
 pub const MODE_BPERM: u8 = 4;
 pub const MODE_BINS: u8 = 5;
 pub const MODE_GATE: u8 = 0;
+pub const MODE_BMISS: u8 = 6;
+pub const MODE_BSUB: u8 = 7;
 
 pub fn mode_name(m: u8) -> &'static str {
     match m {
@@ -25,6 +27,8 @@ pub fn mode_name(m: u8) -> &'static str {
         MODE_BPERM => "builder-orders",
         MODE_BINS => "builder-insertions",
         MODE_GATE => "hermeticity-gate",
+        MODE_BMISS => "builder-missing-subsets",
+        MODE_BSUB => "builder-chains-sub-alphabet",
         _ => "?",
     }
 }
@@ -68,6 +72,7 @@ pub struct Stats {
     pub fired_by_drive: BTreeMap<String, u64>,
     pub surfaced: u64,
     pub surfaced_not_first: u64,
+    pub not_in_source_chain: u64,
     pub calls_after_fire_max: u64,
     pub ok_after_fire_max: u64,
 
@@ -103,6 +108,8 @@ pub struct Stats {
     pub hook_reads: u64,
     pub hook_both_set: u64,
     pub hook_clamped: u64,
+    pub builder_inverted: u64,
+    pub solver_bound_reads: u64,
     pub euler_tol_nonpositive_ok: u64,
     pub chain_hash: u64,
 
@@ -155,6 +162,7 @@ impl Stats {
         }
         self.surfaced += o.surfaced;
         self.surfaced_not_first += o.surfaced_not_first;
+        self.not_in_source_chain += o.not_in_source_chain;
         self.calls_after_fire_max = self.calls_after_fire_max.max(o.calls_after_fire_max);
         self.ok_after_fire_max = self.ok_after_fire_max.max(o.ok_after_fire_max);
         self.ref_runs += o.ref_runs;
@@ -187,6 +195,8 @@ impl Stats {
         self.hook_reads += o.hook_reads;
         self.hook_both_set += o.hook_both_set;
         self.hook_clamped += o.hook_clamped;
+        self.builder_inverted += o.builder_inverted;
+        self.solver_bound_reads += o.solver_bound_reads;
         self.euler_tol_nonpositive_ok += o.euler_tol_nonpositive_ok;
         self.chain_hash = self.chain_hash.wrapping_add(o.chain_hash);
         self.multi_runs += o.multi_runs;
@@ -216,6 +226,10 @@ impl Stats {
             self.ok_items += s.ok_items;
             self.builder_calls += s.builder_calls;
             self.hook_reads += s.hook_reads;
+            self.solver_bound_reads += s.solver_reads;
+            if s.builder_inverted {
+                self.builder_inverted += 1;
+            }
             self.extra_none += s.extra_none;
             self.extra_some_after_done += s.extra_some_after_done;
             if let Some((_, c)) = s.builder_rejected {
@@ -241,6 +255,9 @@ impl Stats {
                     }
                     if s.surfaced_not_first {
                         self.surfaced_not_first += 1;
+                    }
+                    if s.not_in_source_chain {
+                        self.not_in_source_chain += 1;
                     }
                     self.calls_after_fire_max = self.calls_after_fire_max.max(s.calls_after_fire);
                     self.ok_after_fire_max = self.ok_after_fire_max.max(s.ok_after_fire);
